@@ -103,6 +103,13 @@ fn state_lattice_for(spec: &Spec) -> Vec<V> {
             v.push(V::So3([0.0, 0.0, 0.0, 2.0])); // non-unit
             v.push(V::So3([3.0, 0.0, 4.0, 0.0]));
             v.push(V::So3([1e-10, 0.0, 0.0, 0.0]));
+            // one direction at every other decimal order of magnitude a double has (squares that underflow, are
+            // subnormal, overflow): enforce_bounds normalises first, whatever the length
+            for e in (-322..=306).step_by(2) {
+                let m = 10f64.powi(e);
+                v.push(V::So3([0.6 * m, 0.0, 0.8 * m, 0.0]));
+                v.push(V::So3([0.5 * m, -0.5 * m, 0.5 * m, 0.5 * m]));
+            }
             // states placed RELATIVE to the cone: centre x rotation about 4 axes by k x radius for a ladder of k
             // from just inside to far outside (projection ratios t = 1/k over the whole of (0, 1]), and by a
             // ladder of absolute small angles (the projection interpolates, and interpolation switches formula
